@@ -109,6 +109,18 @@ def world_include(r, wid):
         if not any("{%s}" % n in l for l in lines):
             lines.append("Rgate({%s}) | %d" % (n, modes[0]))
     lines.append("BSgate(0.5) | [%d, %d]" % (modes[0], modes[1]))
+    if r.random() < 0.5:
+        # measured registers inside the included program: a transform over several of its
+        # own registers (copied or re-instantiated at every call, and still to be paired
+        # with its function whatever happens to it on the way)
+        regs = ["q%d" % m for m in r.sample(modes, r.randint(2, min(3, nm)))]
+        lines.append("MeasureX | %d" % modes[0])
+        for _ in range(r.randint(1, 2)):
+            e = sym_expr(r, regs, regs=True)
+            if r.random() < 0.4:
+                e = "%s/%s" % (regs[0], regs[1]) if r.random() < 0.5 else "%s**%s" % (regs[-1], regs[0])
+            kw = ", phi=%s" % sym_expr(r, regs, regs=True) if r.random() < 0.3 else ""
+            lines.append("%s(%s%s) | %d" % (r.choice(G.GATES1), e, kw, r.choice(modes)))
     files = {"lib/sub.xbb": "\n".join(lines) + "\n"}
     head = ["name Main", "version 1.0", 'include "<ROOT>/lib/sub.xbb"']
     items = []
@@ -140,6 +152,32 @@ def world_include(r, wid):
     return {"id": wid, "kind": "include", "files": files, "script": {"head": head, "items": items}}
 
 
+def world_arrays(r, wid):
+    """Programs (tdm and plain) that declare arrays under the names the serialiser itself
+    uses for hoisted array arguments (A0, A1, ...) and pass arrays to operations."""
+    tdm = r.random() < 0.6
+    head = ["name arr", "version 1.0"]
+    if tdm:
+        head.append("type tdm (temporal_modes=%d)" % r.randint(1, 3))
+    names = r.sample(["A0", "A1", "A2", "A", "U", "M", "B0"], r.randint(1, 3))
+    items = []
+    for n in names:
+        rows, cols = r.randint(1, 2), r.randint(1, 3)
+        t = r.choice(["float", "float", "int", "complex"])
+        items.append(["%s array %s[%d, %d] =" % (t, n, rows, cols)] +
+                     ["    " + ", ".join(G.num(r, t if t != "float" else "float") for _ in range(cols)) for _ in range(rows)] + [""])
+    if tdm:
+        for pn in r.sample(["p0", "p1", "p2"], r.randint(1, 2)):
+            items.append(["float array %s =" % pn, "    " + ", ".join(G.num(r) for _ in range(r.randint(1, 3))), ""])
+            items.append(["%s(%s, 0.0) | %d" % (r.choice(G.GATES1), pn, r.randrange(2))])
+    for n in names:
+        if r.random() < 0.7:
+            items.append(["Interferometer(%s) | [0, 1]" % n])
+        else:
+            items.append(["%s(%s, k=%s) | %d" % (r.choice(G.GATES1), G.num(r), n, r.randrange(2))])
+    return {"id": wid, "kind": "arrays", "script": {"head": head, "items": items}}
+
+
 def world_wild(r, wid):
     cfg = G.swarm(r)
     cfg["pool"] = r.sample(OVERLAP, r.randint(2, 8))
@@ -156,8 +194,10 @@ def gen_world(seed, wid):
     k = r.random()
     if k < 0.45:
         return world_multi(r, wid)
-    if k < 0.6:
+    if k < 0.62:
         return world_include(r, wid)
+    if k < 0.67:
+        return world_arrays(r, wid)
     return world_wild(r, wid)
 
 
